@@ -131,6 +131,10 @@ func (ex *Exec) opaqueMethod(st *State, recv *IfaceVal, m *types.Func, args []Va
 	switch m.Name() {
 	case "Error", "String":
 		return strConst("<opaque:" + recv.val.(*Opaque).desc + ">")
+	case "Read":
+		if recv.val.(*Opaque).desc == "crypto/rand.Reader" {
+			return ex.randRead(st, args[0].(*SliceVal))
+		}
 	}
 	panic(engineErr("method %s on opaque value %s", m.Name(), recv.val.(*Opaque).desc))
 }
